@@ -136,7 +136,8 @@ impl WatermarkGenerator {
             }
 
             WatermarkStrategy::BoundedOutOfOrder { max_delay } => {
-                let delay_ms = max_delay.as_millis() as u64;
+                // saturate: a delay of 2^64 ms or more means "no watermark progress", not a wrapped small delay
+                let delay_ms = u64::try_from(max_delay.as_millis()).unwrap_or(u64::MAX);
                 let new_ts = self.max_timestamp.saturating_sub(delay_ms);
 
                 if new_ts > self.current_watermark.timestamp {
@@ -243,7 +244,8 @@ impl LateDataHandler {
             }
 
             LateDataStrategy::AllowedLateness { max_lateness } => {
-                let max_lateness_ms = max_lateness.as_millis() as u64;
+                // saturate: a bound of 2^64 ms or more admits every late event
+                let max_lateness_ms = u64::try_from(max_lateness.as_millis()).unwrap_or(u64::MAX);
 
                 if lateness <= max_lateness_ms {
                     self.allowed_count += 1;
